@@ -26,7 +26,7 @@ def expected_set(mnemonic, regs):
 
 class AsmSpecial:
     name = "asm_special"
-    props = ("C01", "C02", "C12", "C13")
+    props = ("C01", "C02", "C12", "C13", "C17")
 
     def cells(self, tier):
         out = []
